@@ -18,6 +18,38 @@ use crate::source::{make_sync, new_log};
 // ---------------------------------------------------------------------------------
 // the type family
 
+thread_local! {
+    static ELEMS: std::cell::Cell<u64> = std::cell::Cell::new(0);
+    static ELEM_BUDGET: std::cell::Cell<u64> = std::cell::Cell::new(u64::MAX);
+}
+
+/// Element wrapper that counts how many sequence elements a deserializer call has
+/// produced. A deserializer that keeps producing elements without consuming input
+/// (unbounded time *and* memory) trips the budget long before memory runs out.
+#[derive(PartialEq, Debug, Clone, Default)]
+pub struct B<T>(pub T);
+impl<'de, T: Deserialize<'de>> Deserialize<'de> for B<T> {
+    fn deserialize<D: serde::Deserializer<'de>>(d: D) -> Result<B<T>, D::Error> {
+        let n = ELEMS.with(|c| {
+            c.set(c.get() + 1);
+            c.get()
+        });
+        if n > ELEM_BUDGET.with(|b| b.get()) {
+            std::panic::panic_any(crate::source::BudgetExceeded("more sequence elements produced than the input has bytes"));
+        }
+        T::deserialize(d).map(B)
+    }
+}
+impl<T: Serialize> Serialize for B<T> {
+    fn serialize<S: serde::Serializer>(&self, s: S) -> Result<S::Ok, S::Error> {
+        self.0.serialize(s)
+    }
+}
+fn arm_budget(len: usize) {
+    ELEMS.with(|c| c.set(0));
+    ELEM_BUDGET.with(|b| b.set(4 * len as u64 + 64));
+}
+
 #[derive(Serialize, Deserialize, PartialEq, Debug, Clone, Default)]
 pub struct Item {
     #[serde(rename = "@k")]
@@ -35,7 +67,7 @@ pub struct T0 {
     n: Option<u32>,
     name: String,
     #[serde(default)]
-    item: Vec<Item>,
+    item: Vec<B<Item>>,
     #[serde(rename = "$text", default, skip_serializing_if = "Option::is_none")]
     text: Option<String>,
 }
@@ -56,16 +88,16 @@ pub enum Choice {
 #[serde(rename = "list")]
 pub struct T1 {
     #[serde(rename = "$value", default)]
-    items: Vec<Choice>,
+    items: Vec<B<Choice>>,
 }
 
 #[derive(Serialize, Deserialize, PartialEq, Debug, Clone, Default)]
 #[serde(rename = "t2")]
 pub struct T2 {
     #[serde(rename = "@list", default)]
-    list: Vec<String>,
+    list: Vec<B<String>>,
     #[serde(default)]
-    num: Vec<i32>,
+    num: Vec<B<i32>>,
     flag: bool,
 }
 
@@ -119,7 +151,7 @@ pub struct T6 {
     #[serde(rename = "@lang", default, skip_serializing_if = "Option::is_none")]
     lang: Option<String>,
     #[serde(rename = "$value", default)]
-    content: Vec<Mixed>,
+    content: Vec<B<Mixed>>,
 }
 
 #[derive(Debug, Default, Clone, Copy)]
@@ -181,9 +213,9 @@ pub struct Newtype(String);
 #[serde(rename = "ov")]
 pub struct T12 {
     #[serde(default)]
-    a: Vec<String>,
+    a: Vec<B<String>>,
     #[serde(default)]
-    b: Vec<Item>,
+    b: Vec<B<Item>>,
     #[serde(default)]
     c: Option<String>,
 }
@@ -223,7 +255,7 @@ pub struct T20(String, #[serde(default)] Option<i32>);
 #[serde(rename = "vl")]
 pub struct T21 {
     #[serde(rename = "$value", default)]
-    v: Vec<String>,
+    v: Vec<B<String>>,
 }
 
 #[derive(Serialize, Deserialize, PartialEq, Debug, Clone)]
@@ -241,6 +273,24 @@ pub enum T22 {
     },
 }
 
+#[derive(Serialize, Deserialize, PartialEq, Debug, Clone, Default)]
+#[serde(rename = "vo")]
+pub struct T24 {
+    #[serde(rename = "$value", default)]
+    v: Vec<B<Option<String>>>,
+}
+
+#[derive(Serialize, Deserialize, PartialEq, Debug, Clone, Default)]
+#[serde(rename = "io")]
+pub struct T25 {
+    #[serde(default)]
+    item: Vec<B<Option<Item>>>,
+    #[serde(rename = "$text", default)]
+    t: Option<String>,
+    #[serde(rename = "@o", default)]
+    o: Vec<B<Option<u8>>>,
+}
+
 /// HashMap with an order-independent Debug rendering (iteration order of a
 /// randomised hash map must never reach a log, a digest or a replay file)
 #[derive(Deserialize, PartialEq, Clone, Default)]
@@ -253,7 +303,7 @@ impl std::fmt::Debug for HM {
     }
 }
 
-pub const N_TYPES: u32 = 23;
+pub const N_TYPES: u32 = 28;
 
 pub fn type_name(id: u32) -> &'static str {
     match id {
@@ -279,6 +329,11 @@ pub fn type_name(id: u32) -> &'static str {
         19 => "T19 {$text?, child?: Box<T19>, list?: Vec<String>} (recursive)",
         20 => "T20(String, Option<i32>) tuple struct",
         21 => "T21 {$value: Vec<String>}",
+        23 => "Vec<Option<u8>>",
+        24 => "T24 {$value: Vec<Option<String>>}",
+        25 => "T25 {item*: Option<Item>, $text?, @o: xs:list of Option<u8>}",
+        26 => "Vec<String>",
+        27 => "(Option<String>, Option<i32>)",
         22 => "enum T22 {$text|Unit|New(Inner)|Tuple(String,String)|Struct{$value?,@n?}}",
         _ => "?",
     }
@@ -330,7 +385,7 @@ pub fn gen_valid_doc(rng: &mut Rng, ty: u32) -> String {
                 id: s(rng),
                 n: if rng.bool() { Some(rng.below(1000) as u32) } else { None },
                 name: s(rng),
-                item: (0..rng.below(4)).map(|_| item(rng)).collect(),
+                item: (0..rng.below(4)).map(|_| B(item(rng))).collect(),
                 text: os(rng),
             },
             None,
@@ -338,20 +393,20 @@ pub fn gen_valid_doc(rng: &mut Rng, ty: u32) -> String {
         1 => ser(
             &T1 {
                 items: (0..rng.below(5))
-                    .map(|_| match rng.below(4) {
+                    .map(|_| B(match rng.below(4) {
                         0 => Choice::A(s(rng)),
                         1 => Choice::B { x: rng.below(100) as i32 - 50 },
                         2 => Choice::C,
                         _ => Choice::Text(s(rng)),
-                    })
+                    }))
                     .collect(),
             },
             None,
         ),
         2 => ser(
             &T2 {
-                list: (0..rng.below(4)).map(|_| s(rng)).collect(),
-                num: (0..rng.below(4)).map(|_| rng.below(2000) as i32 - 1000).collect(),
+                list: (0..rng.below(4)).map(|_| B(s(rng))).collect(),
+                num: (0..rng.below(4)).map(|_| B(rng.below(2000) as i32 - 1000)).collect(),
                 flag: rng.bool(),
             },
             None,
@@ -371,12 +426,12 @@ pub fn gen_valid_doc(rng: &mut Rng, ty: u32) -> String {
             &T6 {
                 lang: os(rng),
                 content: (0..rng.below(6))
-                    .map(|_| match rng.below(4) {
+                    .map(|_| B(match rng.below(4) {
                         0 => Mixed::Text(s(rng)),
                         1 => Mixed::Bold(s(rng)),
                         2 => Mixed::Ital { c: s(rng) },
                         _ => Mixed::Br,
-                    })
+                    }))
                     .collect(),
             },
             None,
@@ -436,7 +491,7 @@ pub fn gen_valid_doc(rng: &mut Rng, ty: u32) -> String {
         14 => ser(&Unit, None),
         15 => ser(&Newtype(s(rng)), None),
         16 => {
-            let v: Vec<Item> = (0..rng.below(4)).map(|_| item(rng)).collect();
+            let v: Vec<B<Item>> = (0..rng.below(4)).map(|_| B(item(rng))).collect();
             ser(&v, Some("item"))
         }
         17 => {
@@ -454,6 +509,15 @@ pub fn gen_valid_doc(rng: &mut Rng, ty: u32) -> String {
         }
         20 => Some(format!("<ts>{}</ts>{}", rng.pick(&["a", "", "x y"]), rng.pick(&["", "<ts>1</ts>", "<ts/>", "<ts>x</ts>"]))),
         21 => Some(format!("<vl>{}</vl>", rng.pick(&["", "a", "<a>1</a><b>2</b>", "t<a/>u", "<a>1</a>text"]))),
+        23 => Some(rng.pick(&["<a>1</a><a/><a>3</a>", "<![CDATA[]]>", "<a/>", "1 2 3", "<a>1</a>", "<a><![CDATA[]]></a>", "<a xsi:nil=\"true\" xmlns:xsi=\"http://www.w3.org/2001/XMLSchema-instance\"/><a>2</a>"]).to_string()),
+        24 => Some(format!("<vo>{}</vo>", rng.pick(&["", "a", "<a>1</a><b/>", "<![CDATA[]]>", "t<a/>u", "<a/><![CDATA[]]><b/>", "<a><![CDATA[]]></a>"]))),
+        25 => Some(format!(
+            "<io{}>{}</io>",
+            rng.pick(&["", " o=\"1 2\"", " o=\"\"", " o=\" 1  \""]),
+            rng.pick(&["", "<item k=\"a\">v</item><item/>", "<item k=\"\"/>text", "<![CDATA[]]>", "<item k=\"a\"><![CDATA[]]></item>", "<item xsi:nil=\"true\" xmlns:xsi=\"http://www.w3.org/2001/XMLSchema-instance\"/>"])
+        )),
+        26 => Some(rng.pick(&["<s>a</s><s>b</s>", "<s/>", "a b c", "<![CDATA[x]]>", "<![CDATA[]]>", "<s>a</s>t<s/>"]).to_string()),
+        27 => Some(rng.pick(&["<t>a</t><t>1</t>", "<t/><t/>", "<![CDATA[]]>", "<t>a</t>", "a 1", "<t><![CDATA[]]></t><t>2</t>"]).to_string()),
         22 => Some(
             rng.pick(&[
                 "text",
@@ -611,6 +675,7 @@ enum Res3 {
 fn de_both<T: DeserializeOwned + PartialEq + std::fmt::Debug>(plan: &Plan, from_str_too: bool) -> (Option<Res3>, Res3, bool, u32) {
     let a = if from_str_too {
         let text = std::str::from_utf8(&plan.doc).unwrap();
+        arm_budget(plan.doc.len());
         Some(match guard(|| quick_xml::de::from_str::<T>(text)) {
             Ok(Ok(v)) => (Res3::Ok(format!("{:?}", v)), Some(v)),
             Ok(Err(e)) => (Res3::Err(format!("{:?}", e)), None),
@@ -622,6 +687,7 @@ fn de_both<T: DeserializeOwned + PartialEq + std::fmt::Debug>(plan: &Plan, from_
     let shared = Rc::new(plan.doc.clone());
     let log = new_log(refill_budget(plan.doc.len(), &plan.stream) * 4);
     let src = make_sync(shared, &plan.stream, log.clone(), plan.run);
+    arm_budget(plan.doc.len());
     let b = match guard(|| quick_xml::de::from_reader::<_, T>(src)) {
         Ok(Ok(v)) => (Res3::Ok(format!("{:?}", v)), Some(v)),
         Ok(Err(e)) => (Res3::Err(format!("{:?}", e)), None),
@@ -663,7 +729,12 @@ fn dispatch(plan: &Plan, from_str_too: bool) -> (Option<Res3>, Res3, bool, u32) 
         20 => de_both::<T20>(plan, from_str_too),
         21 => de_both::<T21>(plan, from_str_too),
         22 => de_both::<T22>(plan, from_str_too),
-        _ => de_both::<Vec<Item>>(plan, from_str_too),
+        23 => de_both::<Vec<B<Option<u8>>>>(plan, from_str_too),
+        24 => de_both::<T24>(plan, from_str_too),
+        25 => de_both::<T25>(plan, from_str_too),
+        26 => de_both::<Vec<B<String>>>(plan, from_str_too),
+        27 => de_both::<(B<Option<String>>, B<Option<i32>>)>(plan, from_str_too),
+        _ => de_both::<Vec<B<Item>>>(plan, from_str_too),
     }
 }
 
